@@ -67,10 +67,11 @@ def run_c18(v):
     mc = lib.tlc_mc("MC_Collapse.tla", _cfg("MC_Collapse_run.cfg", MC_COLLAPSE.format(hits=5 if quick else 6, variant="ideal", mod=23)),
                     timeout=3000, coverage=False)
     lib.require_mc_ok(mc, "MC_Collapse")
-    r = lib.tlc_mc("MC_Collapse.tla", _cfg("MC_Collapse_prefix_run.cfg", MC_COLLAPSE.format(hits=5 if quick else 6, variant="prefix", mod=0).replace("INVARIANT Partition\nINVARIANT WindowLaw\n", "")),
+    r = lib.tlc_mc("MC_Collapse.tla", _cfg("MC_Collapse_prefix_run.cfg", MC_COLLAPSE.format(hits=4 if quick else 6, variant="prefix", mod=0).replace("INVARIANT Partition\nINVARIANT WindowLaw\n", "")),
                    timeout=1200, coverage=False)
     lib.require_mc_ok(r, "MC_Collapse on an exact prefix of the ranking")
-    for variant, inv in (("arrival", "Best"), ("offbyone", "WindowLaw"), ("segcand", "Best")):
+    variants = (("arrival", "Best"), ("segcand", "Best")) if quick else (("arrival", "Best"), ("offbyone", "WindowLaw"), ("segcand", "Best"))
+    for variant, inv in variants:
         r = lib.tlc_mc("MC_Collapse.tla", _cfg(f"MC_Collapse_{variant}_run.cfg", MC_COLLAPSE.format(hits=5 if variant == "segcand" else 4, variant=variant, mod=0)
                             .replace("INVARIANT Partition\nINVARIANT WindowLaw\n", "INVARIANT Partition\n" + ("" if variant == "segcand" else "INVARIANT WindowLaw\n"))),
                        timeout=1200, coverage=False)
@@ -87,7 +88,7 @@ def run_c18(v):
         "requests_judged": s1["requests"] + s2["requests"],
         "cases_generated_by_tlc": n_cases, "cases_replayed": s1["requests"],
         "mc_bounds": f"every ranked list of <={5 if quick else 6} hits in groups 0..3 (0 = no value) x inner sort same/other x from 0..2 x size none/0..3",
-        "broken_variants_refuted_by_model": ["arrival", "offbyone", "segcand (as-built candidate list, S18a)"],
+        "broken_variants_refuted_by_model": [x[0] for x in variants],
         "samples": s2["samples"], "exhaustive": False,
     })
     v.assumptions += [
@@ -123,7 +124,7 @@ def run_c19(v):
     r = lib.tlc_mc("MC_Rescore.tla", _cfg("MC_Rescore_asbuilt_run.cfg", MC_RESCORE.format(hits=5, asbuilt="TRUE")),
                    timeout=1200, coverage=False, workers=4)
     lib.expect_mc_violation(r, "MC_Rescore as-built sort window (S19a)", {"TailOk"})
-    s = _drive(v, "rescore", "random", {"C19"}, ["--scenarios", 12 if quick else 200, "--requests", 40 if quick else 80])
+    s = _drive(v, "rescore", "random", {"C19"}, ["--scenarios", 20 if quick else 200, "--requests", 40 if quick else 80])
     v.coverage.update({
         "states": mc["distinct"], "transitions": mc["states"],
         "traces_validated_against_impl": s["scenarios"], "requests_judged": s["requests"],
@@ -208,7 +209,7 @@ def run_c22(v):
     r = lib.tlc_mc("MC_Suggest.tla", _cfg("MC_Suggest_firstseg_run.cfg", MC_SUGGEST.format(variant="firstseg", ndocs=2)),
                    timeout=1200, coverage=False, workers=4)
     lib.expect_mc_violation(r, "MC_Suggest variant firstseg", {"LayoutIndependent", "DfIsCount"})
-    s = _drive(v, "suggest", "random", {"C22"}, ["--scenarios", 6 if quick else 80, "--requests", 30 if quick else 60])
+    s = _drive(v, "suggest", "random", {"C22"}, ["--scenarios", 10 if quick else 80, "--requests", 30 if quick else 60])
     v.coverage.update({
         "states": mc["distinct"], "transitions": mc["states"],
         "traces_validated_against_impl": s["scenarios"], "requests_judged": s["requests"],
